@@ -55,7 +55,10 @@ func builtInSources(c *core.Ctx) {
 	rng := rand.New(rand.NewSource(c.Seed*15485863 + 6))
 	gen := &SGen{R: rng, Q: &QGen{R: rng, MaxDepth: 2}}
 	var pool []string
-	for len(pool) < 40 {
+	// small sources of one kind only (a first file that holds nothing but schema extensions, one directive, ...)
+	pool = append(pool, "extend schema @a", "extend schema { query: Q }", "extend schema @a { mutation: M }", "schema { query: Q }", "directive @d on SCHEMA | SCALAR",
+		"scalar S", "extend scalar S @d", "type Q { a: Int }", "extend type Q { b: Int }", "\"only a description\" scalar T")
+	for len(pool) < 50 {
 		t := RenderIgnored(UnparseSchema(gen.Doc(), rng), rng)
 		if _, err := parser.ParseSchema(&ast.Source{Input: t}); err == nil && len(t) < 600 {
 			pool = append(pool, t)
